@@ -19,7 +19,7 @@ type rootGeneratorSimple struct {
 func newRootGeneratorSimple(r io.Reader) *rootGeneratorSimple {
 	return &rootGeneratorSimple{
 		counter:       newCounter(),
-		scanner:       bufio.NewScanner(r),
+		scanner:       newLineScanner(r),
 		nodeGenerator: newNodeGenerator(),
 	}
 }
